@@ -28,6 +28,34 @@ Qed.
 Theorem chunks_concat : forall (xs : list A) (m : positive), concat (chunk_tasks xs m) = xs.
 Proof. intros xs m. unfold chunk_tasks. apply chunk_loop_concat. lia. Qed.
 
+(* the same for the float carry: EVERY sequence of ceil values *)
+Lemma chunk_by_concat : forall fuel (ceil_at : nat -> Z) i (xs : list A),
+  (length xs < fuel)%nat -> concat (chunk_by fuel ceil_at i xs) = xs.
+Proof.
+  induction fuel as [|fuel IH]; intros ceil_at i xs Hlen; [lia|].
+  simpl.
+  set (c := Z.to_nat (Z.max 1 (ceil_at i))).
+  assert (Hc : (1 <= c)%nat) by (unfold c; lia).
+  destruct xs as [|x xs'].
+  - rewrite firstn_nil. reflexivity.
+  - destruct c as [|c']; [lia|].
+    simpl firstn. simpl skipn. simpl concat.
+    rewrite IH.
+    + simpl. f_equal. apply firstn_skipn.
+    + rewrite skipn_length. simpl in Hlen. lia.
+Qed.
+
+Theorem chunks_by_concat : forall (ceil_at : nat -> Z) (xs : list A), concat (chunk_tasks_by ceil_at xs) = xs.
+Proof. intros. unfold chunk_tasks_by. apply chunk_by_concat. lia. Qed.
+
+Lemma chunk_by_nonempty : forall fuel (ceil_at : nat -> Z) i (xs : list A) ch,
+  In ch (chunk_by fuel ceil_at i xs) -> ch <> [].
+Proof.
+  induction fuel as [|fuel IH]; intros ceil_at i xs ch Hin; simpl in Hin; [contradiction|].
+  destruct (firstn (Z.to_nat (Z.max 1 (ceil_at i))) xs) as [|a l] eqn:E; [contradiction|].
+  destruct Hin as [H|H]; [subst ch; discriminate|]. eapply IH; eauto.
+Qed.
+
 (* no task is empty (a worker is never sent an empty array) *)
 Lemma chunk_loop_nonempty : forall fuel (q cur : Q) (xs : list A) ch,
   In ch (chunk_loop fuel q cur xs) -> ch <> [].
@@ -203,6 +231,35 @@ Proof.
   rewrite (collect_any_order (chunk_tasks xs (4 * n_jobs))).
   - now rewrite chunks_concat.
   - apply pool_delivers_each_result_once.
+Qed.
+
+(* ★ the same for the float carry arithmetic: every sequence of ceil values *)
+Theorem parallel_equals_serial_any_carry : forall (ceil_at : nat -> Z) (xs : list A),
+  parmap_by f pool ceil_at xs = serial f xs.
+Proof.
+  intros ceil_at xs. unfold parmap_by, serial.
+  rewrite (collect_any_order (chunk_tasks_by ceil_at xs)).
+  - now rewrite chunks_by_concat.
+  - apply pool_delivers_each_result_once.
+Qed.
+
+(* with the error path: whenever the call returns at all, it returns the serial result ... *)
+Theorem parmap_checked_returns_serial : forall (ceil_at : nat -> Z) (predicted : nat) (xs : list A) r,
+  parmap_checked f pool ceil_at predicted xs = Some r -> r = serial f xs.
+Proof.
+  intros ceil_at predicted xs r H. unfold parmap_checked in H.
+  destruct (Nat.eqb predicted (length (chunk_tasks_by ceil_at xs))); [|discriminate].
+  inversion H. apply (parallel_equals_serial_any_carry ceil_at xs).
+Qed.
+
+(* ... and it raises exactly when the announced number of chunks is not the number produced *)
+Theorem parmap_checked_raises_iff : forall (ceil_at : nat -> Z) (predicted : nat) (xs : list A),
+  parmap_checked f pool ceil_at predicted xs = None <-> predicted <> length (chunk_tasks_by ceil_at xs).
+Proof.
+  intros ceil_at predicted xs. unfold parmap_checked.
+  destruct (Nat.eqb predicted (length (chunk_tasks_by ceil_at xs))) eqn:E.
+  - apply Nat.eqb_eq in E. split; [discriminate|intro; contradiction].
+  - apply Nat.eqb_neq in E. split; auto.
 Qed.
 
 End ParallelSerial.
